@@ -42,12 +42,51 @@ func eventSources(c *an.Check) []EventSource {
 			if len(args) < 3 {
 				continue
 			}
+			ctxOf := func(v ssa.Value) string {
+				if an.IsNilConst(v) {
+					return "nil"
+				}
+				if mi, ok := v.(*ssa.MakeInterface); ok {
+					return types.TypeString(mi.X.Type(), func(p *types.Package) string { return p.Name() })
+				}
+				return "?"
+			}
 			evs := eventValues(w, args[1])
-			ctx := "nil"
-			if !an.IsNilConst(args[2]) {
-				ctx = "?"
-				if mi, ok := args[2].(*ssa.MakeInterface); ok {
-					ctx = types.TypeString(mi.X.Type(), func(p *types.Package) string { return p.Name() })
+			ctx := ctxOf(args[2])
+			// a shared delivery helper `deliver(swap, event, ctx)`: the event (and
+			// context) are the helper's parameters; resolve them at its callers
+			if evPar, isPar := args[1].(*ssa.Parameter); isPar && len(evs) == 1 && evs[0] == "?" {
+				resolved := false
+				for _, g := range prodFuncs(w) {
+					for _, gc := range an.Calls(g) {
+						if gc.Common().StaticCallee() != fn {
+							continue
+						}
+						ga := gc.Common().Args
+						ei, ci := -1, -1
+						for i, p := range fn.Params {
+							if p == evPar {
+								ei = i
+							}
+							if p == args[2] {
+								ci = i
+							}
+						}
+						if ei < 0 || ei >= len(ga) {
+							continue
+						}
+						cctx := ctx
+						if ci >= 0 && ci < len(ga) {
+							cctx = ctxOf(ga[ci])
+						}
+						for _, ev := range eventValues(w, ga[ei]) {
+							resolved = true
+							out = append(out, EventSource{Event: ev, Fn: g, Call: gc, CtxType: cctx})
+						}
+					}
+				}
+				if resolved {
+					continue
 				}
 			}
 			for _, ev := range evs {
